@@ -94,6 +94,8 @@ func rulesC11(c *Ctx) {
 		c.Check(hasQuote && hasBackslash && hasCtl, "C11.TABLE", "zitiql/ZitiQl.g4: SAFECODEPOINT", "-", "unescaped string characters exclude the double quote, the backslash and control characters", "SAFECODEPOINT admits a quote, backslash or control character unescaped ("+body+"): literals containing them become ambiguous or run into the following literal")
 	}
 	ruleC01Seek(c)
+	// a contains literal denotes its own text: the case-sensitive operators compare the operands as written
+	ruleC01Ops(c)
 
 	// --- locate the decoder: what turns the STRING token's text into a constant's value --------
 	// (in the listener itself or in a free function it hands the token text to)
